@@ -135,10 +135,18 @@ impl managed::Manager for Mgr {
     }
 }
 
-fn hook_result(o: u8) -> Result<(), HookError<()>> {
+fn hook_result(o: u8, backend: bool) -> Result<(), HookError<()>> {
     match o {
         OUT_OK => Ok(()),
-        OUT_ERR => Err(HookError::message("scripted")),
+        // both variants of HookError are used (decided by the object's identity, so that a replay
+        // does the same): what get() answers must not depend on it
+        OUT_ERR => {
+            if backend {
+                Err(HookError::Backend(()))
+            } else {
+                Err(HookError::message("scripted"))
+            }
+        }
         _ => panic!("scripted panic in hook"),
     }
 }
@@ -151,7 +159,7 @@ fn make_hook(log: Arc<Log>, kind: u8, k: u8, is_async: bool) -> Hook<Mgr> {
             log.see_metrics(id, m);
             Box::pin(async move {
                 log.ev([EV_HOOK_CALL, (kind as i64) * 10 + k as i64, id as i64, rc as i64, rs as i64]);
-                hook_result((AsyncGate { kind, k }).await)
+                hook_result((AsyncGate { kind, k }).await, (id + k as usize) % 2 == 1)
             })
         })
     } else {
@@ -165,7 +173,7 @@ fn make_hook(log: Arc<Log>, kind: u8, k: u8, is_async: bool) -> Hook<Mgr> {
                 m.recycled.is_some() as i64,
             ]);
             match sync_gate(kind, k) {
-                Some(o) => hook_result(o),
+                Some(o) => hook_result(o, (obj.id + k as usize) % 2 == 1),
                 None => Ok(()),
             }
         })
@@ -307,7 +315,12 @@ impl World {
                 queue_mode: qm,
             })
         } else {
-            Pool::builder(Mgr { log: log.clone() }).max_size(cfg.max).queue_mode(qm)
+            // the builder's setters in either order (the result must not depend on it)
+            if (cfg.max + cfg.pc.len()) % 2 == 0 {
+                Pool::builder(Mgr { log: log.clone() }).max_size(cfg.max).queue_mode(qm)
+            } else {
+                Pool::builder(Mgr { log: log.clone() }).queue_mode(qm).timeouts(Timeouts::default()).max_size(cfg.max)
+            }
         };
         for (k, a) in cfg.pre.iter().enumerate() {
             b = b.pre_recycle(make_hook(log.clone(), K_PRE, k as u8, *a));
